@@ -1148,6 +1148,23 @@ impl ElementRaw {
         Ok(())
     }
 
+    /// remove all sub elements (of an element with mixed content whose content is about to be replaced)
+    pub(crate) fn remove_all_sub_elements(&mut self, model: &AutosarModel) -> Result<(), AutosarDataError> {
+        if self.content.iter().any(|item| matches!(item, ElementContent::Element(_))) {
+            let path = Cow::from(self.path_unchecked()?);
+            for item in &self.content {
+                if let ElementContent::Element(sub_element) = item {
+                    sub_element
+                        .0
+                        .write()
+                        .remove_internal(sub_element.downgrade(), model, Cow::from(path.as_ref()));
+                }
+            }
+            self.content.retain(|item| !matches!(item, ElementContent::Element(_)));
+        }
+        Ok(())
+    }
+
     // remove all of the content of an element
     pub(crate) fn remove_internal(&mut self, self_weak: WeakElement, model: &AutosarModel, mut path: Cow<str>) {
         if self.is_identifiable() {
